@@ -120,7 +120,9 @@ impl CaseEngine for C23 {
         "fixed databases (generated histories with long string and vector values so that one read spans several storage calls) opened as \
          DbFile, DbAny::new_file and Db behind Arc<RwLock<_>>; sequential baseline of ~100-300 read queries and read transactions; then 16 \
          (thorough 48) threads each take the read lock and run random reads in tight loops, with the read gap hook yielding between seek \
-         and read; every result must equal the baseline. The hooked counters must show both locked and fallback-handle reads for the \
+         and read; every result must equal the baseline. In every other case one more thread holds the read lock and takes backups and copies \
+         (`&self` operations) for as long as the readers run; these must succeed and the last backup must answer every baseline read \
+         identically. The hooked counters must show both locked and fallback-handle reads for the \
          file-only variants. evaluations = concurrent reads compared; distinct = distinct (variant, read kind) pairs x rounds"
             .into()
     }
@@ -225,9 +227,77 @@ impl CaseEngine for C23 {
                 done
             }));
         }
+        // every other case: one more thread holds the read lock and takes backups and copies
+        // (`&self` operations, legal next to readers) for as long as the readers run
+        let stop = Arc::new(std::sync::atomic::AtomicBool::new(false));
+        let bak = format!("{dir}/bak.agdb");
+        let copier = if case % 2 == 1 {
+            let shared = shared.clone();
+            let stop = stop.clone();
+            let bak = bak.clone();
+            let cpy = format!("{dir}/copy.agdb");
+            Some(std::thread::spawn(move || -> (u64, u64, Option<String>) {
+                let (mut backups, mut copies, mut err) = (0u64, 0u64, None);
+                while !stop.load(Ordering::SeqCst) {
+                    let r = panicmon::catch(|| {
+                        let guard = shared.read().unwrap();
+                        let b = with_db!(&*guard, db, db.backup(&bak).map_err(|e| e.description));
+                        let c = with_db!(&*guard, db, db.copy(&cpy).map(|_| ()).map_err(|e| e.description));
+                        (b, c)
+                    });
+                    crate::hist_eng::cleanup(&cpy);
+                    match r {
+                        Ok((b, c)) => {
+                            backups += b.is_ok() as u64;
+                            copies += c.is_ok() as u64;
+                            if let Some(e) = b.err().or(c.err()) {
+                                err.get_or_insert(e);
+                            }
+                        }
+                        Err(p) => {
+                            err.get_or_insert(format!("panic {}", p.message));
+                        }
+                    }
+                    std::thread::yield_now();
+                }
+                (backups, copies, err)
+            }))
+        } else {
+            None
+        };
         let mut total = 0;
         for h in handles {
             total += h.join().unwrap_or(0);
+        }
+        stop.store(true, Ordering::SeqCst);
+        if let Some(h) = copier {
+            let (backups, copies, err) = h.join().unwrap_or((0, 0, Some("copier thread died".into())));
+            rep.add("backups_taken_under_the_read_lock_next_to_readers", backups as i64);
+            rep.add("copies_taken_under_the_read_lock_next_to_readers", copies as i64);
+            rep.eval();
+            let ctx = json!({"engine":"c23","case":case,"seed":args.u64("seed",1),"tier":args.str("tier","quick"),"threads":threads});
+            if let Some(e) = err {
+                rep.violation(&format!("C23:backup_or_copy_failed_next_to_readers:{kind}"), &format!("[{kind}] {e}"), ctx.clone());
+            } else if backups > 0 {
+                // the last backup, taken while readers were running, must answer every read like the original
+                let r = panicmon::catch(|| -> Result<usize, String> {
+                    let b = open(kind, &bak).map_err(|e| e.description)?;
+                    let mut diff = 0;
+                    for (i, q) in list.iter().enumerate() {
+                        if with_db!(&b, db, run_read(db, q)) != baseline[i] {
+                            diff += 1;
+                        }
+                    }
+                    Ok(diff)
+                });
+                match r {
+                    Ok(Ok(0)) => {}
+                    Ok(Ok(n)) => rep.violation(&format!("C23:backup_taken_next_to_readers_differs:{kind}"), &format!("[{kind}] {n} of {} reads answer differently on the backup", list.len()), ctx.clone()),
+                    Ok(Err(e)) => rep.violation(&format!("C23:backup_taken_next_to_readers_unreadable:{kind}"), &format!("[{kind}] {e}"), ctx.clone()),
+                    Err(p) => rep.violation(&format!("C23:{}:{kind}", p.signature()), &format!("[{kind}] opening the backup: {}", p.message), ctx.clone()),
+                }
+            }
+            crate::hist_eng::cleanup(&bak);
         }
         agdb::verif::READ_GAP_YIELDS.store(0, Ordering::SeqCst);
         rep.evaluations += total;
@@ -270,6 +340,7 @@ impl CaseEngine for C23 {
             rep.require(&format!("file_reads_locked_{k}"), 1000);
             rep.require(&format!("file_reads_fallback_handle_{k}"), 1000);
         }
+        rep.require("backups_taken_under_the_read_lock_next_to_readers", 3);
         let _ = std::fs::remove_dir_all(args.str("scratch", "/verif/scratch/c23"));
     }
 }
